@@ -180,6 +180,40 @@ def explore_state(acc, pendulum, z, inst, inter, deep=True, kinds=True):
                              {"fields": exp_ff, "offset": exp_oo}, kf=kf)
             elif kname in ("zoneinfo", "pytz") and r.timezone_name != z:
                 acc.mismatch(f"instance({kname})", "zone-name", case, r.timezone_name, z)
+            if kname == "pytz":
+                continue
+            # aware DateTimes that carry a FOREIGN tzinfo (results of astimezone(<stdlib tz>), fromisoformat, the
+            # constructor) as receivers of the conversions
+            recvs = [("astimezone(foreign)", lambda: a.astimezone(ktz)),
+                     ("DateTime(tzinfo=foreign)", lambda: pendulum.DateTime(*obs.fields(nk), tzinfo=ktz, fold=nk.fold))]
+            if kname == "timezone" and exp_o % 60 == 0 and obs.fields(nk)[0] >= 1000:
+                recvs.append(("fromisoformat", lambda: pendulum.DateTime.fromisoformat(nk.isoformat())))
+            for rname, mkr in recvs:
+                try:
+                    x = mkr()
+                except Exception as e:  # noqa: BLE001
+                    acc.mismatch(f"foreign-receiver/{rname}", f"raises-{type(e).__name__}", dict(base, op=rname, foreign=kname),
+                                 type(e).__name__, "an aware DateTime")
+                    continue
+                acc.c["transitions"] += 1
+                if (obs.fields(x), obs.offset_s(x)) != (exp_ff, exp_oo) or type(x) is not pendulum.DateTime:
+                    acc.mismatch(f"foreign-receiver/{rname}", "rendering", dict(base, op=rname, foreign=kname),
+                                 {"fields": obs.fields(x), "offset": obs.offset_s(x), "type": type(x).__name__},
+                                 {"fields": exp_ff, "offset": exp_oo})
+                    continue
+                for w in [z, "UTC"] + list(inter[:2]):
+                    for cname, fn in (("in_timezone", lambda: x.in_timezone(_tz(pendulum, w))),
+                                      ("in_tz", (lambda: x.in_tz(w)) if not isinstance(w, int) else None)):
+                        if fn is None:
+                            continue
+                        case = dict(base, op=f"{rname}->{cname}", foreign=kname, w=w)
+                        try:
+                            r2 = fn()
+                        except Exception as e:  # noqa: BLE001
+                            acc.mismatch(f"foreign-receiver->{cname}", f"raises-{type(e).__name__}", case, type(e).__name__,
+                                         "converted value")
+                            continue
+                        verify(acc, pendulum, r2, w, inst, f"foreign-receiver->{cname}", case)
     if not deep:
         return
     # ---------------- depth 2 and 3
